@@ -111,7 +111,12 @@ func (b *BlockList) refreshRemote() {
 
 	b.fetchBlocklist()
 
-	if err := b.readBlocklists(); err != nil {
+	// Only what the fetch just brought in. Everything else in the directory
+	// was loaded by loadInitial, and by now the API may be live: parsing
+	// `local` a second time re-adds, in memory only, an entry whose Remove
+	// has already hit the maps but whose save has not reached the file yet
+	// — memory and disk then disagree until the next restart.
+	if err := b.readLists(true); err != nil {
 		zlog.Error("Read blocklists after refresh failed", "dir", b.cfg.BlockListDir, "error", err.Error())
 	}
 }
@@ -260,7 +265,11 @@ func (b *BlockList) removeStaleTemps() {
 	}
 }
 
-func (b *BlockList) readBlocklists() error {
+func (b *BlockList) readBlocklists() error { return b.readLists(false) }
+
+// readLists parses the list files of the blocklist directory into memory.
+// With downloadsOnly it looks at freshly downloaded "*.tmp" files only.
+func (b *BlockList) readLists(downloadsOnly bool) error {
 	zlog.Info("Loading blocked domains...", "path", b.cfg.BlockListDir)
 
 	if _, err := os.Stat(b.cfg.BlockListDir); os.IsNotExist(err) {
@@ -284,6 +293,9 @@ func (b *BlockList) readBlocklists() error {
 		// a save that is running right now (refreshRemote re-reads the
 		// directory while the API is live).
 		if !f.IsDir() && strings.HasPrefix(f.Name(), localTempPrefix) {
+			return nil
+		}
+		if downloadsOnly && !f.IsDir() && filepath.Ext(path) != ".tmp" {
 			return nil
 		}
 		if !f.IsDir() {
